@@ -97,10 +97,25 @@ def load_known() -> List[dict]:
     return data.get("findings", [])
 
 
+_sharing: Optional[dict] = None
+
+
+def sharing() -> dict:
+    """rule id -> further properties the rule is run for: those anchored in a source file the rule inspects and whose
+    statement overlaps with the rule's own property (sa/sharing.json, tools/gen_sharing.py)"""
+    global _sharing
+    if _sharing is None:
+        try:
+            _sharing = json.loads((VERIF / "sa" / "sharing.json").read_text())
+        except Exception:
+            _sharing = {}
+    return _sharing
+
+
 def rules_for(prop: str, tier: str) -> List[RuleSpec]:
     out = []
     for spec in RULES.values():
-        if spec.prop != prop and prop not in spec.also:
+        if spec.prop != prop and prop not in spec.also and prop not in sharing().get(spec.rid, ()):
             continue
         if spec.tier == "thorough" and tier != "thorough":
             continue
@@ -165,7 +180,7 @@ def run_property(repo: Repo, prop: str, tier: str = "quick", only_rule: Optional
         seen.add(f.ident())
         hit = None
         for k in open_known:
-            if k["rule"] == f.rule and k["key"] == f.key and prop in ([k["property"]] + k.get("also", [])):
+            if k["rule"] == f.rule and k["key"] == f.key:  # a finding is the same finding under every property its rule is run for
                 hit = k
                 break
         if hit is not None:
